@@ -6,6 +6,7 @@ def text_edit(old, new):
         return src.replace(old, new, 1) if old in src else None
     return edit
 MUTANTS = [
+    Mutant('remove_iiv_reassign', 'src/pharmpy/modeling/parameter_variability.py', text_edit("                    new_ass = Assignment.create(s.symbol, Expr(expr_subs))\n                    sset = sset[:ind] + new_ass + sset[ind + 1 :]", "                    sset = sset.reassign(s.symbol, Expr(expr_subs))"), 'X8', 'reassign deletes the other assignments (the defect repaired by 196f062)'),
     Mutant('add_iiv_cached_index', 'src/pharmpy/modeling/parameter_variability.py', (lambda src: src.replace("    for i in range(len(list_of_parameters)):\n        omega = Expr.symbol(f'IIV_{list_of_parameters[i]}')", "    indices = []\n    for name in list_of_parameters:\n        indices.append(sset.find_assignment_index(name))\n\n    for i in range(len(list_of_parameters)):\n        omega = Expr.symbol(f'IIV_{list_of_parameters[i]}')", 1).replace("        index = sset.find_assignment_index(list_of_parameters[i])\n", "        index = indices[i]\n", 1) if "        index = sset.find_assignment_index(list_of_parameters[i])\n" in src else None), 'X4', 'positions cached before statements are inserted'),
     Mutant('additive_guard_first_dv', 'src/pharmpy/modeling/error.py', text_edit("    if has_additive_error_model(model, dv):", "    if has_additive_error_model(model):"), 'X2', 'guard ignores the requested dv'),
     Mutant('power_guard_first_dv', 'src/pharmpy/modeling/error.py', text_edit("has_proportional_error_model(model, dv=dv_symb)", "has_proportional_error_model(model)"), 'X2', 'detector asked about the first dv'),
